@@ -30,19 +30,23 @@ type FibStrategyHashTable struct {
 	// Must be a positive value
 	m int
 
-	// realTable is a map of names (hashed as uint64 values) to the FIB entry
-	// associated with that name.
-	realTable map[uint64]*baseFibStrategyEntry
+	// The tables are keyed by the name itself (the encoding of its components,
+	// see prefixKeys; string is simply used as an immutable version of bytes),
+	// not by the 64-bit value of Name.Hash: distinct names with the same hash
+	// value exist and are easy to construct, and an entry found under the key of
+	// another name answers lookups with the wrong next hops and strategy.
 
-	// virtTable is a map of virtual names (hashed as uint64 values) to the
-	// virtualDetails struct associated with that virtual name.
-	virtTable map[uint64]*virtualDetails
+	// realTable is a map of names to the FIB entry associated with that name.
+	realTable map[string]*baseFibStrategyEntry
 
-	// virtTableNames is a map of virtual names (hashed as uint64 values) to
-	// a set of all the real names associated with that virtual name. The
-	// inner map is being used as a set to map name bytes into lengths.
-	// string is simply used as an immutable version of bytes
-	virtTableNames map[uint64](map[string]int)
+	// virtTable is a map of virtual names to the virtualDetails struct
+	// associated with that virtual name.
+	virtTable map[string]*virtualDetails
+
+	// virtTableNames is a map of virtual names to a set of all the real names
+	// associated with that virtual name. The inner map is being used as a set
+	// to map names into lengths.
+	virtTableNames map[string](map[string]int)
 
 	// fibStrategyRWMutex is a mutex used to synchronize accesses to the FIB,
 	// which is shared across all the forwarding threads.
@@ -56,26 +60,53 @@ func newFibStrategyTableHashTable(m uint16) {
 	fibStrategyTableHashTable := FibStrategyTable.(*FibStrategyHashTable)
 
 	fibStrategyTableHashTable.m = int(m) // Cast to int so that it's easy to pass to name.Prefix
-	fibStrategyTableHashTable.realTable = make(map[uint64]*baseFibStrategyEntry)
-	fibStrategyTableHashTable.virtTable = make(map[uint64]*virtualDetails)
-	fibStrategyTableHashTable.virtTableNames = make(map[uint64]map[string]int)
+	fibStrategyTableHashTable.realTable = make(map[string]*baseFibStrategyEntry)
+	fibStrategyTableHashTable.virtTable = make(map[string]*virtualDetails)
+	fibStrategyTableHashTable.virtTableNames = make(map[string]map[string]int)
 	rootName, _ := enc.NameFromStr(("/"))
 	defaultStrategy, _ := enc.NameFromStr("/localhost/nfd/strategy/best-route/v=1")
 
 	rtEntry := new(baseFibStrategyEntry)
 	rtEntry.name = rootName
 	rtEntry.strategy = defaultStrategy
-	fibStrategyTableHashTable.realTable[rootName.Hash()] = rtEntry
+	fibStrategyTableHashTable.realTable[nameKey(rootName)] = rtEntry
+}
+
+// prefixKeys returns the table keys of all prefixes of the name: ret[n] is the
+// key of the prefix of length n, which is the concatenated TLV encoding of its
+// components. The encoding is one-to-one, so two names have the same key if and
+// only if they are equal. All keys share one backing string.
+func prefixKeys(name enc.Name) []string {
+	buf := make([]byte, name.EncodingLength())
+	ends := make([]int, len(name)+1)
+	pos := 0
+	for i, c := range name {
+		pos += c.EncodeInto(buf[pos:])
+		ends[i+1] = pos
+	}
+	all := string(buf)
+	ret := make([]string, len(name)+1)
+	for i, end := range ends {
+		ret[i] = all[:end]
+	}
+	return ret
+}
+
+// nameKey returns the table key of the name.
+func nameKey(name enc.Name) string {
+	buf := make([]byte, name.EncodingLength())
+	name.EncodeInto(buf)
+	return string(buf)
 }
 
 // findLongestPrefixMatch returns the entry corresponding to the longest
 // prefix match of the given name. It returns nil if no exact match was found.
 func (f *FibStrategyHashTable) findLongestPrefixMatchEnc(name enc.Name) *baseFibStrategyEntry {
-	prefixHash := name.PrefixHash()
+	keys := prefixKeys(name)
 	if len(name) <= f.m {
 		// Name length is less than or equal to M, so only need to check real table
 		for pfx := len(name); pfx >= 0; pfx-- {
-			if val, ok := f.realTable[prefixHash[pfx]]; ok {
+			if val, ok := f.realTable[keys[pfx]]; ok {
 				return val
 			}
 		}
@@ -84,13 +115,13 @@ func (f *FibStrategyHashTable) findLongestPrefixMatchEnc(name enc.Name) *baseFib
 
 	// Name is longer than M, so use virtual node to lookup first
 	// virtName := (name)[:f.m]
-	virtNameHash := prefixHash[f.m]
-	virtEntry, ok := f.virtTable[virtNameHash]
+	virtKey := keys[f.m]
+	virtEntry, ok := f.virtTable[virtKey]
 	if ok {
 		// Virtual name present, look for longer matches
 		pfx := min(virtEntry.md, len(name))
 		for ; pfx > f.m; pfx-- {
-			if val, ok := f.realTable[prefixHash[pfx]]; ok {
+			if val, ok := f.realTable[keys[pfx]]; ok {
 				return val
 			}
 		}
@@ -101,7 +132,7 @@ func (f *FibStrategyHashTable) findLongestPrefixMatchEnc(name enc.Name) *baseFib
 	// For example: Table has prefixes /a and /a/b/c, virtual entry is /a/b
 	// A search for /a/b/d will not match /a/b/c, so we need it to match /a
 	for pfx := f.m; pfx >= 0; pfx-- {
-		if val, ok := f.realTable[prefixHash[pfx]]; ok {
+		if val, ok := f.realTable[keys[pfx]]; ok {
 			return val
 		}
 	}
@@ -114,54 +145,53 @@ func (f *FibStrategyHashTable) findLongestPrefixMatchEnc(name enc.Name) *baseFib
 // virtTable, and virtTableNames. It does not set the nexthops or strategy
 // fields of the newly created entry. The caller is responsible for doing that.
 func (f *FibStrategyHashTable) insertEntryEnc(name enc.Name) *baseFibStrategyEntry {
-	prefixHash := name.PrefixHash()
-	nameHash := prefixHash[len(name)]
-	nameBytes := string(name.Bytes())
+	keys := prefixKeys(name)
+	key := keys[len(name)]
 
-	if _, ok := f.realTable[nameHash]; !ok {
+	if _, ok := f.realTable[key]; !ok {
 		rtEntry := new(baseFibStrategyEntry)
 		// The entry outlives the call and pruneTables recomputes the table keys
 		// from its name: keep a private copy, as the tree implementation does.
 		rtEntry.name = name.Clone()
-		f.realTable[nameHash] = rtEntry
+		f.realTable[key] = rtEntry
 	}
 
 	// Insert into virtual table if name size >= M
 	if len(name) == f.m {
-		if _, ok := f.virtTable[nameHash]; !ok {
+		if _, ok := f.virtTable[key]; !ok {
 			vtEntry := new(virtualDetails)
 			vtEntry.md = len(name)
-			f.virtTable[nameHash] = vtEntry
+			f.virtTable[key] = vtEntry
 		}
 
-		if _, ok := f.virtTableNames[nameHash]; !ok {
-			f.virtTableNames[nameHash] = make(map[string]int)
+		if _, ok := f.virtTableNames[key]; !ok {
+			f.virtTableNames[key] = make(map[string]int)
 		}
 
-		f.virtTable[nameHash].md = max(f.virtTable[nameHash].md, len(name))
+		f.virtTable[key].md = max(f.virtTable[key].md, len(name))
 
 		// Insert into set of names
-		f.virtTableNames[nameHash][nameBytes] = len(name)
+		f.virtTableNames[key][key] = len(name)
 
 	} else if len(name) > f.m {
-		virtNameHash := prefixHash[f.m]
-		if _, ok := f.virtTable[virtNameHash]; !ok {
+		virtKey := keys[f.m]
+		if _, ok := f.virtTable[virtKey]; !ok {
 			vtEntry := new(virtualDetails)
 			vtEntry.md = len(name)
-			f.virtTable[virtNameHash] = vtEntry
+			f.virtTable[virtKey] = vtEntry
 		}
 
-		if _, ok := f.virtTableNames[virtNameHash]; !ok {
-			f.virtTableNames[virtNameHash] = make(map[string]int)
+		if _, ok := f.virtTableNames[virtKey]; !ok {
+			f.virtTableNames[virtKey] = make(map[string]int)
 		}
 
-		f.virtTable[virtNameHash].md = max(f.virtTable[virtNameHash].md, len(name))
+		f.virtTable[virtKey].md = max(f.virtTable[virtKey].md, len(name))
 
 		// Insert into set of names
-		f.virtTableNames[virtNameHash][nameBytes] = len(name)
+		f.virtTableNames[virtKey][key] = len(name)
 	}
 
-	return f.realTable[nameHash]
+	return f.realTable[key]
 }
 
 // pruneTables takes in an entry and removes it from the real table if it has no
@@ -170,13 +200,12 @@ func (f *FibStrategyHashTable) insertEntryEnc(name enc.Name) *baseFibStrategyEnt
 func (f *FibStrategyHashTable) pruneTables(entry *baseFibStrategyEntry) {
 	var pruned bool
 	name := entry.name
-	prefixHash := name.PrefixHash()
-	nameHash := prefixHash[len(name)]
-	nameBytes := string(name.Bytes())
+	keys := prefixKeys(name)
+	key := keys[len(name)]
 
 	// Delete the real entry
 	if len(entry.nexthops) == 0 && entry.strategy == nil {
-		delete(f.realTable, nameHash)
+		delete(f.realTable, key)
 		pruned = true
 	}
 
@@ -186,12 +215,12 @@ func (f *FibStrategyHashTable) pruneTables(entry *baseFibStrategyEntry) {
 
 	// Delete the virtual entry too, if needed
 	if len(name) >= f.m {
-		virtNameHash := prefixHash[f.m]
-		virtEntry, inVirtTable := f.virtTable[virtNameHash]
-		virtTableNamesEntry, inVirtNameTable := f.virtTableNames[virtNameHash]
+		virtKey := keys[f.m]
+		virtEntry, inVirtTable := f.virtTable[virtKey]
+		virtTableNamesEntry, inVirtNameTable := f.virtTableNames[virtKey]
 		namePresentForVirtName := false
 		if inVirtNameTable {
-			_, namePresentForVirtName = virtTableNamesEntry[nameBytes]
+			_, namePresentForVirtName = virtTableNamesEntry[key]
 		}
 
 		// If virtual name is present in table
@@ -200,9 +229,9 @@ func (f *FibStrategyHashTable) pruneTables(entry *baseFibStrategyEntry) {
 		// Then delete from virtualTableNames if it's last real name
 		// associated with the virtual name
 		if inVirtTable && namePresentForVirtName && pruned {
-			delete(virtTableNamesEntry, nameBytes)
+			delete(virtTableNamesEntry, key)
 			if len(virtTableNamesEntry) == 0 {
-				delete(f.virtTableNames, virtNameHash)
+				delete(f.virtTableNames, virtKey)
 			}
 		}
 
@@ -210,11 +239,11 @@ func (f *FibStrategyHashTable) pruneTables(entry *baseFibStrategyEntry) {
 		// AND the real name being deleted was the longest associated with the virtual name
 		// AND this real name was deleted from the real table
 		if inVirtTable && len(name) == virtEntry.md && pruned {
-			_, inVirtNameTable = f.virtTableNames[virtNameHash]
+			_, inVirtNameTable = f.virtTableNames[virtKey]
 			if !inVirtNameTable {
 				// Delete the entry entirely from the virtual table too
 				// if it was removed it from the virtual name table
-				delete(f.virtTable, virtNameHash)
+				delete(f.virtTable, virtKey)
 			} else {
 				// Update with length of next longest real prefix associated
 				// with this virtual prefix. The maximum is taken over the
@@ -222,7 +251,7 @@ func (f *FibStrategyHashTable) pruneTables(entry *baseFibStrategyEntry) {
 				// keep it forever, and the virtual node would then survive
 				// the removal of its last (shorter) real name.
 				virtEntry.md = 0
-				for _, l := range f.virtTableNames[virtNameHash] {
+				for _, l := range f.virtTableNames[virtKey] {
 					virtEntry.md = max(virtEntry.md, l)
 				}
 			}
@@ -244,9 +273,9 @@ func (f *FibStrategyHashTable) FindNextHopsEnc(name enc.Name) []*FibNextHopEntry
 
 	// Go backwards to find the first entry with nexthops
 	// since some might only have a strategy but no nexthops
-	prefixHash := name.PrefixHash()
+	keys := prefixKeys(name)
 	for pfx := len(entry.name); pfx >= 0; pfx-- {
-		val, ok := f.realTable[prefixHash[pfx]]
+		val, ok := f.realTable[keys[pfx]]
 		if ok && len(val.nexthops) > 0 {
 			return copyNextHops(val.nexthops)
 		}
@@ -269,9 +298,9 @@ func (f *FibStrategyHashTable) FindStrategyEnc(name enc.Name) enc.Name {
 
 	// Go backwards to find the first entry with strategy
 	// since some might only have a nexthops but no strategy
-	prefixHash := name.PrefixHash()
+	keys := prefixKeys(name)
 	for pfx := len(entry.name); pfx >= 0; pfx-- {
-		val, ok := f.realTable[prefixHash[pfx]]
+		val, ok := f.realTable[keys[pfx]]
 		if ok && val.strategy != nil {
 			return val.strategy
 		}
@@ -308,7 +337,7 @@ func (f *FibStrategyHashTable) ClearNextHopsEnc(name enc.Name) {
 	f.fibStrategyRWMutex.Lock()
 	defer f.fibStrategyRWMutex.Unlock()
 
-	entry, ok := f.realTable[name.Hash()]
+	entry, ok := f.realTable[nameKey(name)]
 	if ok {
 		entry.nexthops = make([]*FibNextHopEntry, 0)
 		f.pruneTables(entry)
@@ -321,13 +350,13 @@ func (f *FibStrategyHashTable) RemoveNextHopEnc(name enc.Name, nexthop uint64) {
 	f.fibStrategyRWMutex.Lock()
 	defer f.fibStrategyRWMutex.Unlock()
 
-	nameHash := name.Hash()
-	if _, ok := f.realTable[nameHash]; !ok {
+	key := nameKey(name)
+	if _, ok := f.realTable[key]; !ok {
 		return
 	}
 
 	// Remove matching nexthop from real table (if one exists)
-	realEntry := f.realTable[nameHash]
+	realEntry := f.realTable[key]
 	nextHops := realEntry.nexthops
 	for i, nh := range nextHops {
 		if nh.Nexthop == nexthop {
@@ -370,7 +399,7 @@ func (f *FibStrategyHashTable) UnSetStrategyEnc(name enc.Name) {
 	f.fibStrategyRWMutex.Lock()
 	defer f.fibStrategyRWMutex.Unlock()
 
-	entry, ok := f.realTable[name.Hash()]
+	entry, ok := f.realTable[nameKey(name)]
 	if ok {
 		entry.strategy = nil
 		f.pruneTables(entry)
